@@ -225,7 +225,7 @@ theorem no_trace_partial {s : Sys} (hroots : s.roots.all (visible s) = true) {e 
 
 /-- two roots, one hidden: moduleIndex.html and index.html still have a row for it -/
 def sHiddenRoot : Sys :=
-  { objs := [ mkObj ['a'] .module none .hidden [], { mkObj ['b'] .module none .pub [] with modul := some 1 } ],
+  { objs := #[ mkObj ['a'] .module none .hidden [], { mkObj ['b'] .module none .pub [] with modul := some 1 } ],
     all := [0, 1], roots := [0, 1], depth := 1, nosidebar := false }
 
 theorem no_trace_counterexample_root :
